@@ -85,7 +85,7 @@ func (con *Connection) DecryptedRead(b []byte) (int, error) {
 				// Ignore timeout error #77
 			} else {
 				log.Debug.Println("Decryption failed:", err)
-				err = con.connection.Close()
+				con.connection.Close()
 			}
 			return 0, err
 		}
